@@ -19,6 +19,18 @@ Lemma import_placeholder_ws : forall o sign spos path w pw p ps r endp st,
   (Some r, tok_at st (TComment (sign ++ [32] ++ url_encode path)) spos None).
 Proof. intros. reflexivity. Qed.
 
+(* the url forms (accepted since fix eb11eee): url token and url("...") function *)
+Lemma import_placeholder_url : forall o sign spos path w pw p ps r endp st,
+  import_try o sign spos (Leaf (TWs w) pw :: Leaf (TUrl path) p :: Leaf TSemi ps :: r) endp st =
+  (Some r, tok_at st (TComment (sign ++ [32] ++ url_encode path)) spos None).
+Proof. intros. reflexivity. Qed.
+
+Lemma import_placeholder_url_fn : forall o sign spos path w pw p ps pf e c r endp st,
+  import_try o sign spos
+    (Leaf (TWs w) pw :: Block (TFunc s_url) pf [Leaf (TStr path) p] e c :: Leaf TSemi ps :: r) endp st =
+  (Some r, tok_at st (TComment (sign ++ [32] ++ url_encode path)) spos None).
+Proof. intros. reflexivity. Qed.
+
 (* with a media query the placeholder is wrapped in `@media <query> { ... }`, opened and closed
    exactly once *)
 Lemma import_placeholder_media : forall o sign spos path p q pq ps r endp st,
@@ -71,31 +83,34 @@ Definition C18_import_any_target_full : Prop :=
     existsb (tok_is_comment (sign ++ [32] ++ url_encode path))
             (o_tokens (w_normal (transform (import_opts sign) (import_sheet target) (mkpos 0 21)))) = true.
 
-(* D17: `@import url(foo.wxss);` is dropped *)
-Theorem import_any_target_refuted : ~ C18_import_any_target_full.
-Proof.
-  intro H. specialize (H [73] [102;111;111] (TUrl [102;111;111]) (or_intror eq_refl)).
-  vm_compute in H. discriminate.
-Qed.
-
 Lemma str_eqb_refl : forall s, str_eqb s s = true.
 Proof. induction s as [|c s IH]; [reflexivity|]. cbn [str_eqb]. rewrite N.eqb_refl, IH. reflexivity. Qed.
 
-Theorem import_any_target_except_known : forall sign path,
-  existsb (tok_is_comment (sign ++ [32] ++ url_encode path))
-          (o_tokens (w_normal (transform (import_opts sign) (import_sheet (TStr path)) (mkpos 0 21)))) = true.
+(* History: before fix eb11eee `@import url(foo.wxss);` was dropped (D17) and this statement was
+   refuted by that witness; the model mirrors the repaired code and the statement is a theorem. *)
+Theorem import_any_target : C18_import_any_target_full.
 Proof.
-  intros sign path. unfold transform, import_sheet, import_opts.
+  intros sign path target Ht. unfold transform, import_sheet, import_opts.
   cbn [nodes_size fold_right node_size Nat.add].
   cbn [rules skip_ws node_tok is_ws_or_comment at_rule import_sign].
   replace (str_eqb s_import s_import) with true by reflexivity.
-  cbn [cur_pos node_pos]. rewrite import_placeholder_ws.
+  cbn [cur_pos node_pos].
+  assert (E : import_try (import_opts sign) sign (mkpos 0 7)
+                [Leaf (TWs [32]) (mkpos 0 7); Leaf target (mkpos 0 8); Leaf TSemi (mkpos 0 20)] (mkpos 0 21) w_init =
+              (Some [], tok_at w_init (TComment (sign ++ [32] ++ url_encode path)) (mkpos 0 7) None)).
+  { destruct Ht as [-> | ->]; reflexivity. }
+  unfold import_opts in E. rewrite E.
   cbn [rules skip_ws].
   unfold tok_at, emit, w_init. cbn [w_using_low w_normal apply_op].
   unfold append_token, o_init. cbn [o_prev needs_separator ser_type].
   unfold o_tokens, push_text, add_entry, set_prev. cbn [o_toks rev_append rev app existsb tok_is_comment].
   rewrite str_eqb_refl. reflexivity.
 Qed.
+
+Example import_any_target_former_witness :
+  map ser_tok (o_tokens (w_normal (transform (import_opts [73]) (import_sheet (TUrl [102;111;111])) (mkpos 0 21))))
+  = [[47;42;73;32;102;111;111;42;47]].
+Proof. vm_compute. reflexivity. Qed.
 
 (* wrappers: full statement "the braces written for an @import are balanced" is refuted for
    malformed conditions: output written before a failing `try_parse` is not rolled back *)
@@ -126,7 +141,7 @@ Qed.
 
 (* with host conversion off a qualified rule never reaches the host branch *)
 Lemma host_off_identity : forall o l endp st,
-  convert_host o = false -> qrule o l endp st = qr_loop o (skip_ws l) false false None st.
+  convert_host o = false -> qrule o l endp st = qr_loop o (skip_ws l) false false st.
 Proof. intros o l endp st H. unfold qrule. rewrite H. reflexivity. Qed.
 
 (* a pure `:host { ... }` rule: everything goes through host_emit *)
@@ -172,15 +187,15 @@ Proof. intros st0 st o H. eapply low_mode_trans; [exact H|]. apply low_mode_emit
 Lemma low_mode_dim : forall o st0 st n u p, low_mode_same st0 st -> low_mode_same st0 (write_maybe_rpx_dimension o st n u p).
 Proof. intros. unfold write_maybe_rpx_dimension, tok_at. destruct (str_eqb u s_rpx); apply low_mode_step; assumption. Qed.
 
-Lemma low_mode_rpx_body : forall o l in_calc prev pend st0 st,
-  low_mode_same st0 st -> low_mode_same st0 (rpx_body o in_calc l prev pend st).
+Lemma low_mode_rpx_body : forall o l in_calc prev st0 st,
+  low_mode_same st0 st -> low_mode_same st0 (rpx_body o in_calc l prev st).
 Proof.
   intros o l.
   remember (nodes_size l) as n eqn:Hn. revert l Hn.
   induction n as [n IHn] using (well_founded_induction Wf_nat.lt_wf).
-  intros l Hn. destruct l as [|x r]; intros in_calc prev pend st0 st H; [exact H|].
+  intros l Hn. destruct l as [|x r]; intros in_calc prev st0 st H; [exact H|].
   cbn [rpx_body].
-  assert (Hr : forall ic pv pd s, low_mode_same st0 s -> low_mode_same st0 (rpx_body o ic r pv pd s)).
+  assert (Hr : forall ic pv s, low_mode_same st0 s -> low_mode_same st0 (rpx_body o ic r pv s)).
   { intros. eapply (IHn (nodes_size r)); [|reflexivity|assumption]. subst n. apply size_tail. }
   destruct (is_comment (node_tok x)); [apply Hr; exact H|].
   destruct (is_ws (node_tok x) && negb in_calc); [apply Hr; exact H|].
@@ -217,7 +232,7 @@ Proof.
   assert (H2 : forall s, low_mode_same s0 s -> forall n v q, low_mode_same s0 (write_attr_selector s n v q)).
   { intros s Hs n v q. unfold write_attr_selector, tok_at. repeat apply low_mode_step. exact Hs. }
   assert (H3 : low_mode_same s0
-     (tok_at (rpx_body o false body None None
+     (tok_at (rpx_body o false body None
         (tok_at (match host_is o with
                  | Some h => write_attr_selector (tok_at (write_attr_selector s1 s_wx_host
                                (match class_prefix o with Some x => x | None => [] end) p) TComma p None) s_is h p
